@@ -150,6 +150,11 @@ func (fr *Frame) step(instr ssa.Instruction, st *State) *State {
 			vals[i] = ex.val(fr, r, st)
 		}
 		fr.rets = append(fr.rets, retRec{st: st, vals: vals, pos: x.Pos()})
+		if !fr.inline && ex.onReturn != nil {
+			// path-sensitive exit checks are made right here, while the VC only
+			// contains what precedes this return
+			ex.onReturn(fr, st.clone(), vals, len(fr.rets))
+		}
 		return nil
 	case *ssa.If, *ssa.Jump:
 		return st
